@@ -19,7 +19,7 @@ RULE = (
     "default | glob string-prefix-but-not-component-prefix); distinct_nontrivial counts classes observed."
 )
 ASSUMPTIONS = [
-    "Excl: (atom, package) pairs where a USE dependency without (+)/(-) names a flag absent from the package's IUSE (PMS calls this an error; counted under class 'excluded', not judged)",
+    "Excl: (atom, package) pairs where a USE dependency without (+)/(-) names a flag absent from the package's IUSE and key, version, slot, sub-slot and repository all hold (PMS calls this an error; counted under class 'excluded-...', not judged)",
     "Excl: '=v*' whose written version ends in a letter or a number-less suffix, or spells a revision '-r0'; versions with leading-zero components (component-prefix vs. PMS wording arguable there)",
     "Excl: packages whose USE is not a subset of IUSE; USE-conditional deps ([x?], [x=], [!x?]) which need a parent USE state",
     "packages are pkgcore.test.misc.FakePkg objects with EAPI 7 (so that an IUSE entry '+x' counts as flag x in IUSE); only attributes slot, subslot, repo.repo_id, iuse, use, category, package, fullver are set by the harness",
@@ -61,13 +61,13 @@ def _menus(tier):
         mismatch_keys = ["a/q", "b/p"]
     else:
         pkg_vers = [
-            "1", "1.0", "1.1", "1.10", "1.1.1", "1.2", "10", "10.1", "2", "0.9", "1-r1", "1-r2", "1-r10", "1.1-r1",
-            "1_p1", "1_p10", "1_p1-r1", "1_p1_p1", "1_alpha1", "1a", "1a-r1", "11",
+            "1", "1.0", "1.1", "1.10", "1.1.1", "10", "10.1", "2", "0.9", "1-r1", "1-r2", "1-r10", "1.1-r1",
+            "1_p1", "1_p10", "1_p1-r1", "1_alpha1", "1a",
         ]  # fmt: skip
         atom_vers = ["1", "1.1", "1-r1", "1_p1", "10", "1.0", "1a", "1_alpha1", "1.1-r1"]
         slotmenu = [
-            (None, None, None), ("0", None, None), ("1", None, None), ("0", "0", None), ("0", "a", None), ("1", "a", None),
-            (None, None, "="), (None, None, "*"), ("0", None, "="), ("0", "a", "="),
+            (None, None, None), ("0", None, None), ("0", "0", None), ("0", "a", None), ("1", "a", None),
+            (None, None, "="), (None, None, "*"), ("0", "a", "="),
         ]  # fmt: skip
         repomenu = [None, "r1", "r2"]
         usemenu = [()] + [(t,) for t in _XT] + [(a, b) for a in _XT for b in _YT] + _ZT
@@ -274,8 +274,9 @@ def _negated_use_group(case):
 CLASSIFIERS = {"glob-raw-string-prefix": _glob_raw_prefix, "negated-use-deps-nand": _negated_use_group}
 
 BOUNDS = {
-    "quick": "35 operator/version heads x 3 blocker forms x 6 slot forms x 2 repo forms x 16 USE-dep forms (+ 8 key-mismatch heads) "
-    "= ~21k atoms, each against 2016 packages (2 keys x 14 versions x 2 slots x 2 sub-slots x 2 repos x 9 IUSE/USE states)",
-    "thorough": "59 heads x 3 blockers x 10 slot forms x 3 repo forms x 43 USE-dep forms (all x-token x y-token pairs) (+ 20 "
-    "key-mismatch heads) = ~250k atoms, each against 8800 packages (22 versions, IUSE spelled plain and with '+' default)",
+    "quick": "35 operator/version heads (none; < <= = ~ >= > =* x 1, 1.1, 1-r1, 1_p1, 10) x 3 blocker forms x 6 slot forms x 2 repo forms x 21 "
+    "USE-dep forms (+ 8 key-mismatch heads) = 28 476 atoms, each against 1 134 packages (a/p: 14 versions x 2 slots x 2 sub-slots x "
+    "2 repos x 9 IUSE/USE states; a/q: 14 versions x 9 states) = 32.3 M matches",
+    "thorough": "59 heads (9 written versions) x 3 blockers x 8 slot forms x 3 repo forms x 48 USE-dep forms (all 36 x-token x y-token "
+    "pairs) (+ 20 key-mismatch heads) = ~227 k atoms, each against 2 592 packages (18 versions; IUSE also spelled '+flag') = ~590 M matches",
 }
